@@ -231,6 +231,66 @@ def check_par_wrap(project: Project, rep):
             rep.refuted("AD-PAR", tr, tr.node, "a lone diagram is treated differently when n_jobs is set")
 
 
+def check_alignment(project: Project, rep):
+    """AD-ALIGN: the weights are computed from the rows of the diagram, one per row, and later paired with the rows by a
+    common loop index. If one of the two parallel arrays is re-bound to a selection of itself (`X = X[keep]`) and the other
+    is not re-bound with the same selector, position i of one no longer belongs to position i of the other: points get
+    other points' weights (the image stops being additive / order-free as soon as a point is filtered out)."""
+    from .common import expand_locals, fn_view, stmts_in_order
+    fi = project.function(TR)
+    f = fn_view(project, fi)
+    X = fi.params[0]
+    order = stmts_in_order(f)
+    wname = None
+    widx = None
+    for k, st in enumerate(order):
+        if isinstance(st, ast.Assign) and len(st.targets) == 1 and isinstance(st.targets[0], ast.Name) \
+                and isinstance(st.value, ast.Call) and isinstance(st.value.func, ast.Name) and st.value.func.id in fi.params \
+                and sum(1 for a in st.value.args if isinstance(a, ast.Subscript) and isinstance(a.value, ast.Name)
+                        and a.value.id == X) >= 2:
+            wname, widx = st.targets[0].id, k
+            break
+    if wname is None:
+        rep.unmodelled("AD-ALIGN", fi, fi.node, "the statement computing one weight per diagram row was not found")
+        return
+    sel = {X: [], wname: []}
+    for st in order[widx + 1:]:
+        if isinstance(st, ast.Assign) and len(st.targets) == 1 and isinstance(st.targets[0], ast.Name) \
+                and st.targets[0].id in sel and isinstance(st.value, ast.Subscript) and isinstance(st.value.value, ast.Name) \
+                and st.value.value.id == st.targets[0].id:
+            sl = st.value.slice
+            first = sl.elts[0] if isinstance(sl, ast.Tuple) else sl
+            if isinstance(first, ast.Slice) and first.lower is None and first.upper is None and first.step is None:
+                continue  # all rows kept (column selection only)
+            sel[st.targets[0].id].append((ast.unparse(expand_locals(f, first)), st))
+    # both arrays used with one loop index afterwards?
+    paired = False
+    for lp in [n for n in ast.walk(f) if isinstance(n, ast.For) and isinstance(n.target, ast.Name)]:
+        iv = lp.target.id
+        used = set()
+        for n in ast.walk(lp):
+            if isinstance(n, ast.Subscript) and isinstance(n.value, ast.Name) and n.value.id in sel:
+                first = n.slice.elts[0] if isinstance(n.slice, ast.Tuple) else n.slice
+                if isinstance(first, ast.Name) and first.id == iv:
+                    used.add(n.value.id)
+        if used == {X, wname}:
+            paired = True
+    sx, sw = [t for t, _ in sel[X]], [t for t, _ in sel[wname]]
+    if sx == sw:
+        rep.discharged("AD-ALIGN", fi, order[widx], f"`{wname}` holds one weight per row of `{X}` and the two stay aligned "
+                                                    f"({'no row selection after that' if not sx else 'both re-bound with ' + sx[0]})")
+    elif paired:
+        node = (sel[X] or sel[wname])[0][1]
+        rep.refuted("AD-ALIGN", fi, node,
+                    f"after the weights were computed, `{X}` is re-bound with row selection(s) {sx or '—'} but `{wname}` with "
+                    f"{sw or '—'}; both are then indexed by one loop index: once a row is filtered out, every later point is "
+                    f"accumulated with another point's weight (the image depends on point order and is no longer the sum of "
+                    f"the images of its parts)", construct=f"{TR}: weights and rows filtered differently")
+    else:
+        rep.unmodelled("AD-ALIGN", fi, (sel[X] or sel[wname])[0][1], "rows and weights are re-bound differently; how they are "
+                                                                     "paired afterwards was not recognised")
+
+
 def check_skew_sites(project: Project, rep):
     # PersImage.to_landscape
     fi = project.function("persim.images.PersImage.to_landscape")
@@ -306,8 +366,9 @@ def run(project: Project, rep, tier: str):
         check_fold(project, rep, w, k, sg, skew)
     check_empty(project, rep)
     check_par_wrap(project, rep)
+    check_alignment(project, rep)
     check_skew_sites(project, rep)
-    for rn, n in (("AD-FOLD", 4), ("AD-ZERO", 1), ("AD-EMPTY", 1), ("AD-PAR", 2), ("AD-WRAP", 2), ("AD-SKEW", 6)):
+    for rn, n in (("AD-FOLD", 4), ("AD-ALIGN", 1), ("AD-ZERO", 1), ("AD-EMPTY", 1), ("AD-PAR", 2), ("AD-WRAP", 2), ("AD-SKEW", 6)):
         rep.floor(rn, n)
     for t in ("joblib.Parallel", "joblib.delayed", "numpy.zeros", "numpy.copy"):
         rep.trust(t)
